@@ -60,7 +60,8 @@ def lua_value(name, *f):
 def install_lua(I, prog, scripts, calls):
     """scripts: tag byte -> spec (kind, text); calls: list receiving one dict per validate() call."""
     st = I.stubs
-    st['lua_from_env'] = lambda I2, a, ci, dt: Struct('Lua', (Ref(Cell(Struct('LuaState', (None,))), ()),))
+    # LuaState = (script loaded last, script whose `validate` is the current global): globals persist in one VM
+    st['lua_from_env'] = lambda I2, a, ci, dt: Struct('Lua', (Ref(Cell(Struct('LuaState', (None, None))), ()),))
 
     def spec_of(I2, path):
         b = as_sstr(I2, path).b
@@ -84,7 +85,8 @@ def install_lua(I, prog, scripts, calls):
         while isinstance(lua, Ref):
             lua = I2.load(lua)
         t = script_tag(I2, a[1])
-        I2.store(lua.f[0], Struct('LuaState', (t,)))
+        cur = I2.load(lua.f[0])
+        I2.store(lua.f[0], Struct('LuaState', (t, cur.f[1])))
         return Struct('LuaChunk', (lua, t))
     st['Lua::load'] = load
 
@@ -92,6 +94,11 @@ def install_lua(I, prog, scripts, calls):
         t = a[0].f[1]
         if scripts[t][0] == 'load_error':
             return ReadyFut(Err(Opaque('LuaError', 'syntax or runtime error while loading')))
+        if scripts[t][0] != 'no_validate':
+            # running the chunk defines the global function `validate` (it stays defined in this VM)
+            lua = a[0].f[0]
+            cur = I2.load(lua.f[0])
+            I2.store(lua.f[0], Struct('LuaState', (cur.f[0], t)))
         return ReadyFut(Ok(UNIT))
     st['LuaChunk::exec_async'] = exec_async
     st['Chunk::exec_async'] = exec_async
@@ -109,8 +116,8 @@ def install_lua(I, prog, scripts, calls):
             tb = I2.load(tb)
         key = bytes(as_sstr(I2, a[1]).b)
         if tb.f[1] and tb.f[1][0] == 'globals' and key == b'validate':
-            t = I2.load(tb.f[1][1]).f[0]
-            if t is None or scripts[t][0] == 'no_validate':
+            t = I2.load(tb.f[1][1]).f[1]
+            if t is None:
                 return Err(Opaque('LuaError', 'error converting Lua nil to function'))
             return Ok(Struct('LuaFunction', (t,)))
         raise Unmodelled('LuaTable::get(%r)' % key)
